@@ -2,6 +2,9 @@ package zlint
 
 import (
 	"bytes"
+	"time"
+
+	"github.com/zmap/zcrypto/encoding/asn1"
 
 	"github.com/zmap/zcrypto/x509"
 	"github.com/zmap/zlint/v3/lint"
@@ -9,15 +12,19 @@ import (
 	zz "github.com/zmap/zlint/v3/zzverif"
 )
 
+var c20DNSPool = []string{"www.example.com", "www.example.com.", "a..b.example.com", ".example.com", "example.com..", "a.-example.com", "x_y.example.com", "x.a_b.com", "*.example.com", "xn--a.example.com", "aaaaaaaaaaaaaaaaaaaaaaaaaaaaaaaaaaaaaaaaaaaaaaaaaaaaaaaaaaaaaaaaa.example.com"}
+var c20AIAPool = []string{"http://ocsp.example.com/", "http://192.0.2.7:8080/ocsp", "http://[2001:db8::1]/ca.cer", "http://localhost/", "http://10.0.0.1/x", "http://ca.example.invalidtld/", "ldap://directory.example.com/cn=x"}
+
 func c20Finding(s lint.LintStatus) bool {
 	return s == lint.Notice || s == lint.Warn || s == lint.Error
 }
 
 // VerifC20Pair: two lints that implement the same requirement are run on one
 // arbitrary certificate constrained to "same content" for the pair's kind.
-//   same    : equal status
-//   finding : finding <=> finding (the two deliberately differ in severity)
-//   implies : an error from the first comes with a finding from the second
+//
+//	same    : equal status
+//	finding : finding <=> finding (the two deliberately differ in severity)
+//	implies : an error from the first comes with a finding from the second
 func VerifC20Pair() {
 	na, nb := zz.ParamStr("c20.a", ""), zz.ParamStr("c20.b", "")
 	kind, rel := zz.ParamStr("c20.kind", "plain"), zz.ParamStr("c20.rel", "same")
@@ -48,6 +55,33 @@ func VerifC20Pair() {
 		zz.Assume(utilIsEmail(c))
 	case "br":
 		zz.Assume(utilIsServerAuth(c))
+	}
+	if zz.Param("c20.pool", 0) > 0 {
+		// replayable variant: the content the pair judges is drawn from a concrete pool, everything else is fixed
+		// (a subscriber certificate issued in 2024, in the scope of both documents); stubbed parsers are then
+		// evaluated by the real library
+		c.IsCA, c.SelfSigned, c.BasicConstraintsValid = false, false, false
+		c.NotBefore = time.Date(2024, 3, 1, 0, 0, 0, 0, time.UTC)
+		c.NotAfter = time.Date(2024, 9, 1, 0, 0, 0, 0, time.UTC)
+		c.UnknownExtKeyUsage = nil
+		c.IPAddresses, c.URIs = nil, nil
+		c.IANDNSNames, c.IANEmailAddresses, c.IANURIs, c.IANIPAddresses = nil, nil, nil, nil
+		c.Subject.CommonName = ""
+		i, j := zz.Int(), zz.Int()
+		switch kind {
+		case "dnsrfc":
+			zz.Assume(i >= 0 && i < len(c20DNSPool) && j >= 0 && j < len(c20DNSPool))
+			c.ExtKeyUsage, c.PolicyIdentifiers, c.EmailAddresses = nil, nil, nil
+			c.DNSNames = []string{c20DNSPool[i], c20DNSPool[j]}
+		case "aia":
+			zz.Assume(i >= 0 && i < len(c20AIAPool) && j >= 0 && j < len(c20AIAPool))
+			c.ExtKeyUsage = []x509.ExtKeyUsage{x509.ExtKeyUsageServerAuth, x509.ExtKeyUsageEmailProtection}
+			c.PolicyIdentifiers = []asn1.ObjectIdentifier{util.SMIMEBRMailboxValidatedLegacyOID}
+			c.EmailAddresses = []string{"a@example.com"}
+			c.DNSNames = nil
+			c.OCSPServer = []string{c20AIAPool[i]}
+			c.IssuingCertificateURL = []string{c20AIAPool[j]}
+		}
 	}
 	c = zz.Realise(c)
 	cfg := lint.NewEmptyConfig()
